@@ -63,6 +63,10 @@ def run_c01(tier, seed):
         ref = G.hx(G.encode(t))
         kinds[t[0]] = kinds.get(t[0], 0) + 1
         # monitors (implementation only): serializer = RESP2 reference encoder; parse(enc v) = v; canonical bytes re-encode identically
+        if af[0] == "ALIAS":
+            chk.violation("encoding-overwritten", "the bytes RESPBytes returned for the PREVIOUS value changed when %s was serialized: they were %s, they are now %s "
+                          "(an encoding does not stay what it was while other values are encoded)" % (line[:100], af[1][:80], af[2][:80]), dict(tree=line, before_hex=af[1], after_hex=af[2]))
+            continue
         if af[0] in ("P", "ERR"):
             chk.violation("encode-fails", "RESPBytes of %s %s" % (line[:120], "panics" if af[0] == "P" else "returns an error"), dict(tree=line))
             continue
@@ -239,6 +243,18 @@ def run_c02(tier, seed):
         # 'f' waits until the server asks for more input before the next chunk is sent: the client pauses at every cut
         steps = [(0, "f" + CL.hx(p_)) for p_ in parts] + [(0, "e")]
         ccases.append(dict(line=CL.mkcase(steps, default="ms(4f4b)", trace=False), expect=[b"$%d\r\n" % len(a_[0]) + a_[0] + b"\r\n" for _, a_ in reqs], cuts=cuts, n=len(data)))
+    # large values over a slow link: the whole request is available, but no Read returns more than 1 / 16 / 1000 bytes (whatever the
+    # server counts per Read - bytes, calls, buffer sizes - adds up over tens of thousands of reads)
+    import thresholds as T
+    for size in ([70000, 300000] if tier == "quick" else [5000, 70000, 300000, 2 << 20]):
+        for cap in (1, 16, 1000):
+            if size * (1 if cap > 1 else 4) > (400000 if tier == "quick" else 3 << 20):
+                continue
+            big = bytes((i * 31 + 7) % 251 for i in range(size))
+            reqs = [("ECHO", [b"a"]), ("ECHO", [big]), ("ECHO", [b"z"])]
+            data = b"".join(CG.request_bytes(n_, a_) for n_, a_ in reqs)
+            ccases.append(dict(line=CL.mkcase([(0, "c%d" % cap), (0, "f" + CL.hx(data)), (0, "e")], default="ms(4f4b)", trace=False),
+                               expect=[b"$%d\r\n" % len(a_[0]) + a_[0] + b"\r\n" for _, a_ in reqs], cuts=["every %d bytes" % cap], n=len(data)))
     cimpl, cmodel, cfail = vlib.run_pair("conn", [], [c["line"] for c in ccases], shards=8)
     attribute_failures(chk, "conn", [c["line"] for c in ccases], cfail, lambda l: l[:200])
     conn_ok = 0
@@ -377,6 +393,27 @@ def run_c06(tier, seed):
         validated += 1
         if last in ("E",) or ";" in a:
             distinct.add(data_hex)
+    # nesting up to the 1 MiB bound of the property (262143 levels of "*1\r\n"): the implementation alone, one child process per
+    # input - an abort of the process (Go's stack limit is a fatal error, not a panic) is attributed to the depth that caused it.
+    # (The extracted model is compared up to 20000 levels only: its parser is quadratic in the depth.)
+    deep_ok = 0
+    for depth in ((1000, 70000, 262143) if tier == "quick" else (1000, 20000, 65535, 65536, 70000, 100000, 200000, 262143)):
+        for tail in (b":1\r\n", b"", b"*0\r\n"):
+            d = (b"*1\r\n" * depth + tail)[:1 << 20]
+            rc1, o1, _ = vlib.sh(ULIMIT + [os.path.join(vlib.BUILD, "harness"), "parse"], inp="- %s 3\n" % G.hx(d), timeout=300)
+            out = o1.strip().split(" ", 1)[1] if rc1 == 0 and " " in o1.strip() else ""
+            if rc1 != 0 or not out:
+                chk.violation("deep-nesting-abort", "parsing %d nested arrays (%d bytes, inside the 1 MiB bound) ends the process with status %s: %s" %
+                              (depth, len(d), rc1, o1[-300:].replace("\n", " | ")), dict(depth=depth, tail=tail.decode(), rc=rc1, output=o1[-2000:]))
+                break
+            if classify(out) in ("panic", "hang", "nil-element"):
+                chk.violation("deep-nesting-" + classify(out), "parsing %d nested arrays: %s" % (depth, out[-120:]), dict(depth=depth, tail=tail.decode()))
+                break
+            deep_ok += 1
+        else:
+            continue
+        break
+    chk.coverage["deep_nesting_inputs"] = deep_ok
     if broken and not chk.violations:
         chk.violation("proof-broken", broken, dict(broken=broken, theorem="GRP.C06"), True)
     chk.coverage.update(
@@ -387,7 +424,7 @@ def run_c06(tier, seed):
              "or at least one value" % G.BOUNDARY_INTS[:8],
         traces_validated_against_impl=validated, input_distribution=dict(by_kind=kinds, final_outcome=classes, corpus=len(corpus)),
         samples=[lines[i][:160] for i in (0, len(lines) // 3, len(lines) // 2, len(lines) - 1)])
-    chk.coverage["trusted_base"] += ["Go stack exhaustion from > 10^5 nesting levels is a resource limit outside the model",
+    chk.coverage["trusted_base"] += ["nesting beyond 20000 levels is exercised on the implementation only (up to the 1 MiB bound: 262143 levels), not compared with the model",
                                      "native fuzzing is not used; the search is generator-based"]
     chk.finish()
 
